@@ -1,5 +1,5 @@
 (* C10 - each operation sends its prescribed commands and advances only as prescribed. *)
-From LibFtp Require Import Bytes Decimal Reply Endpoint DataConn Client Client_Proofs.
+From LibFtp Require Import Bytes Decimal Reply Endpoint DataConn Client Client_Proofs Login_Proofs.
 Local Open Scope N_scope.
 
 (* a simple call (CWD CDUP PWD DELE MKD RMD SIZE MDTM STAT SYST HELP SITE NOOP ...) writes exactly its one line
@@ -46,10 +46,35 @@ Theorem C10_connect_with_login_is_connect_then_login : forall u pw acc,
 Proof. intros. split; reflexivity. Qed.
 Print Assumptions C10_connect_with_login_is_connect_then_login.
 
-(* PARTIAL: the login sequence (USER, PASS iff 331, stop at the first negative reply, PBSZ 0 / PROT P with TLS, TYPE)
-   and the transfer verbs are fixed by the programs process_login / create_data_connection in Client.v; their
-   agreement with the reference table for every reply class at every step is decided by the correspondence
-   (oracle_commands in bin/props/proto.py), not by a Coq theorem. *)
+(* login against the reference table, for every reply at every step: login_exchange is the table (USER; PASS exactly
+   after 331; stop at the first negative reply; with TLS configured PBSZ 0, stop if negative, PROT P, stop if negative;
+   TYPE I / TYPE A for the configured type) as a function of the replies the server gives; the call exchanges exactly
+   those lines, returns exactly the replies received, and leaves the session in step *)
+Theorem C10_login : forall w u pw rs xs,
+  insync w rs -> simple_all rs xs -> (5 <= length xs)%nat -> has_crlf u = false -> has_crlf pw = false ->
+  let ex := login_exchange (c_tls (w_cfg w)) (c_type (w_cfg w)) u pw xs in
+  exists w', step w (ALogin u pw) = (OReturn (RvReplies (map snd ex)), w') /\
+    insync w' (skipn (length ex) rs) /\ w_cfg w' = w_cfg w /\
+    wire_since (length (w_trace w)) w' = exchange_wire ex.
+Proof. exact login_call. Qed.
+Print Assumptions C10_login.
+
+(* the table itself, spelled out on its branches *)
+Example C10_login_table_331_230 : forall u pw x1 x2 x5 rest, code x1 = 331 -> is_negative x2 = false ->
+  login_exchange false TBinary u pw (x1 :: x2 :: x5 :: rest) =
+    [(USER_ ++ SP :: u, x1); (PASS_ ++ SP :: pw, x2); (TYPE_ ++ SP :: type_arg TBinary, x5)].
+Proof. intros u pw x1 x2 x5 rest E N. unfold login_exchange, login_tail. rewrite E, N. reflexivity. Qed.
+Example C10_login_table_negative_user : forall tls t u pw x1 rest, code x1 <> 331 -> is_negative x1 = true ->
+  login_exchange tls t u pw (x1 :: rest) = [(USER_ ++ SP :: u, x1)].
+Proof. intros tls t u pw x1 rest E N. unfold login_exchange, login_tail. apply N.eqb_neq in E. rewrite E, N. reflexivity. Qed.
+Example C10_login_table_tls_prot_refused : forall u pw x1 x3 x4 rest, code x1 = 230 -> is_negative x1 = false ->
+  is_negative x3 = false -> is_negative x4 = true ->
+  login_exchange true TAscii u pw (x1 :: x3 :: x4 :: rest) = [(USER_ ++ SP :: u, x1); (PBSZ_0, x3); (PROT_P, x4)].
+Proof. intros u pw x1 x3 x4 rest E N1 N3 N4. unfold login_exchange, login_tail. rewrite E, N1, N3, N4. reflexivity. Qed.
+
+(* PARTIAL: the transfer verbs (RETR / STOR / STOU / APPE / LIST / NLST by call and flags) are fixed by the programs
+   op_download / op_upload / op_list of Client.v; their agreement with the reference table is decided by the
+   correspondence (oracle_commands in bin/props/proto.py), not by a Coq theorem. *)
 Example C10_example_login_stops_at_negative :
   let script := [mkSess true false true (mkR [RReply (mkReply 220 [])] [] false false true no_plan)
                    [mkR [RReply (mkReply 331 [])] [] false false true no_plan;
